@@ -203,7 +203,8 @@ Diverge(pre, rec, tlPre, tlPost) ==
   IF a.a \notin Modelled \/ rec.err # "" THEN {}
   ELSE LET ok == a.a \in NoReplyKinds \/ (rec.code >= 200 /\ rec.code < 300)
            fresh == a.a = "ConnectBg" /\ ~pre.sess[a.sess].live
-           r == SeqStep(StateOf(pre, tlPre), a, RowEvents(pre, rec, a), [ok |-> ok, denied |-> rec.code = 403, fresh |-> fresh, tl |-> IF a.t \in TopicNames THEN pre.loaded[a.t] ELSE FALSE])
+           r == SeqStep(StateOf(pre, tlPre), a, RowEvents(pre, rec, a), [ok |-> ok, denied |-> rec.code = 403, fresh |-> fresh, tl |-> IF a.t \in TopicNames THEN pre.loaded[a.t] ELSE FALSE,
+                                     noname |-> IF a.t \in P2Ps THEN S2(pre.noname[a.t]) ELSE {}])
            post == StateOf(rec, tlPost)
        IN (IF r.left # <<>> THEN {"fuel"} ELSE {})
           \cup (IF r.st.ps # post.ps THEN {"perSubs"} ELSE {})
